@@ -464,7 +464,7 @@ def _stuffing_i(i):
 
 def jobs(tier):
     q = tier == "quick"
-    T = 300 if q else 1200
+    T = 600 if q else 1200
     js = [
         {"name": "snapshot", "fn": "snapshot", "params": {}, "timeout": T, "per_path": 90},
         {"name": "retr", "fn": "retr", "params": {}, "timeout": T, "per_path": 90},
